@@ -409,8 +409,8 @@ pub fn run_case(out: &mut Out, header: &str) {
         crate::c06codec::run_case(out, header);
         return;
     }
-    if matches!(a.get(2), Some(&"cmt") | Some(&"cmtw") | Some(&"cmtf")) {
-        // comments: text, VML shapes, positional join (harness/src/c06cmt.rs)
+    if matches!(a.get(2), Some(&"cmt") | Some(&"cmtw") | Some(&"cmtf") | Some(&"cmtp")) {
+        // comments: text, VML shapes, their join by the cell a note shape names (harness/src/c06cmt.rs)
         crate::c06cmt::run_case(out, header);
         return;
     }
